@@ -103,7 +103,9 @@ def build(rng):
             out += ustar_header(name, 0, b"0", b"visor  ", {496: 0, 504: 0, 508: 0})
             expected[name] = b""
         else:
-            out += ustar_header(name, len(data), b"0", b"visor  ", {496: offs[i], 504: rng.randint(0, 9), 508: rng.randint(0, 9)})
+            # regular files are type '0', the old-style NUL, or '7' (contiguous): a tar reader treats all three as files (private generator)
+            tflag = random.Random(repr((name, len(data)))).choice([b"0", b"0", b"0", b"\0", b"7"])
+            out += ustar_header(name, len(data), tflag, b"visor  ", {496: offs[i], 504: rng.randint(0, 9), 508: rng.randint(0, 9)})
             expected[name] = data
     out += b"\x00" * 1024
     out += b"\x00" * (base - len(out))
